@@ -153,13 +153,12 @@ o: L6
 type menuLevel int
 
 const (
-	menuCore menuLevel = iota // narrow value alphabet, one-end reconnects
+	menuMini menuLevel = iota // the sub-menu used at deeper levels (every op of it is also in the full menu)
 	menuFull                  // the full menu of DESIGN.md §3 Group D
 )
 
 var (
 	valuesFull = []*string{sp("vx"), sp("two w"), sp("null"), sp("NULL"), sp("true"), sp("Shape"), sp("k.l"), sp("1"), sp(""), sp("#f00"), sp("v: w"), nil}
-	valuesCore = []*string{sp("vx"), sp("two w"), nil}
 	tagMD      = sp("md")
 )
 
@@ -168,12 +167,22 @@ const (
 	freshName2 = "m"
 )
 
+// MOp is a menu entry; Mini marks membership in the mini menu.
+type MOp struct {
+	Op
+	Mini bool
+}
+
 // Menu is enabled_ops(state): a finite list of edits instantiated from the state's own boards,
 // objects, connections and set attributes. Deterministic in the graph (no map iteration).
-func Menu(g *d2graph.Graph, lv menuLevel) []Op {
-	var ops []Op
+func Menu(g *d2graph.Graph, lv menuLevel) []MOp {
+	var ops []MOp
 	for _, b := range Boards(g) {
-		ops = append(ops, boardMenu(b, lv)...)
+		for _, o := range boardMenu(b) {
+			if lv == menuFull || o.Mini {
+				ops = append(ops, o)
+			}
+		}
 	}
 	return ops
 }
@@ -222,18 +231,17 @@ func edgeAttrKeys(e *d2graph.Edge) []string {
 	return ks
 }
 
-func boardMenu(b BoardRef, lv menuLevel) []Op {
+func isUnder(id, anc string) bool { return id == anc || strings.HasPrefix(id, anc+".") }
+
+func boardMenu(b BoardRef) []MOp {
 	g := b.G
 	bp := b.Path
-	var ops []Op
-	add := func(o Op) {
+	var ops []MOp
+	add := func(mini bool, o Op) {
 		o.B = bp
-		ops = append(ops, o)
+		ops = append(ops, MOp{Op: o, Mini: mini})
 	}
-	vals := valuesCore
-	if lv == menuFull {
-		vals = valuesFull
-	}
+	vals := valuesFull
 	var objs []string
 	var containers []string
 	for _, o := range g.Objects {
@@ -246,111 +254,105 @@ func boardMenu(b BoardRef, lv menuLevel) []Op {
 	for _, e := range g.Edges {
 		edges = append(edges, e.AbsID())
 	}
+	last := len(objs) - 1
 
 	// Create
-	add(Op{K: "create", Key: freshName})
+	add(true, Op{K: "create", Key: freshName})
 	if len(objs) > 0 {
-		add(Op{K: "create", Key: objs[0]}) // existing name: a numbered sibling is generated
+		add(true, Op{K: "create", Key: objs[0]}) // existing name: a numbered sibling is generated
 	}
-	for _, c := range containers {
-		add(Op{K: "create", Key: c + "." + freshName})
+	for i, c := range containers {
+		add(i == 0, Op{K: "create", Key: c + "." + freshName})
 	}
-	add(Op{K: "create", Key: freshName2 + "." + freshName}) // missing container on the path
+	add(false, Op{K: "create", Key: freshName2 + "." + freshName}) // missing container on the path
 	ends := append(append([]string{}, objs...), freshName)
-	if lv != menuFull && len(ends) > 4 {
-		ends = append(append([]string{}, ends[:3]...), freshName)
-	}
-	for _, x := range ends {
-		for _, y := range ends {
-			add(Op{K: "create", Key: x + " -> " + y})
+	for i, x := range ends {
+		for j, y := range ends {
+			mini := (i == 0 && (j == 1 || j == len(ends)-1)) || (i == len(ends)-1 && j == 0) || (i == last && j == 0 && last > 1)
+			add(mini, Op{K: "create", Key: x + " -> " + y})
 		}
 	}
 
 	// Set
-	for i, o := range g.Objects {
+	for i := range g.Objects {
 		k := objs[i]
 		for _, v := range vals {
-			add(Op{K: "set", Key: k, Val: v})
-			add(Op{K: "set", Key: k + ".style.opacity", Val: v})
-			add(Op{K: "set", Key: k + ".style.fill", Val: v})
-			if lv == menuFull && v != nil {
-				add(Op{K: "set", Key: k, Val: v, Tag: tagMD})
-				add(Op{K: "set", Key: k + ".label", Val: v})
+			add(v != nil && *v == "vx", Op{K: "set", Key: k, Val: v})
+			add(false, Op{K: "set", Key: k + ".style.opacity", Val: v})
+			add(v != nil && *v == "#f00", Op{K: "set", Key: k + ".style.fill", Val: v})
+			if v != nil {
+				add(false, Op{K: "set", Key: k, Val: v, Tag: tagMD})
+				add(false, Op{K: "set", Key: k + ".label", Val: v})
 			}
 		}
-		shapes := []*string{sp("circle"), nil}
-		if lv == menuFull {
-			shapes = []*string{sp("circle"), sp("Shape"), sp("CIRCLE"), sp("text"), nil}
+		add(false, Op{K: "set", Key: k + ".style.opacity", Val: sp("0.3")})
+		for _, v := range []*string{sp("circle"), sp("Shape"), sp("CIRCLE"), sp("text"), nil} {
+			add(false, Op{K: "set", Key: k + ".shape", Val: v})
 		}
-		for _, v := range shapes {
-			add(Op{K: "set", Key: k + ".shape", Val: v})
-		}
-		add(Op{K: "set", Key: k + ".near", Val: sp("top-center")})
+		add(false, Op{K: "set", Key: k + ".near", Val: sp("top-center")})
 		for j := range g.Objects {
-			if j != i && (lv == menuFull || j < 2) {
-				add(Op{K: "set", Key: k + ".near", Val: sp(objs[j])})
+			if j != i {
+				add(false, Op{K: "set", Key: k + ".near", Val: sp(objs[j])})
 			}
 		}
-		_ = o
 	}
 	for _, k := range edges {
 		for _, v := range vals {
-			add(Op{K: "set", Key: k, Val: v})
-			add(Op{K: "set", Key: k + ".style.stroke", Val: v})
-			add(Op{K: "set", Key: k + ".target-arrowhead.label", Val: v})
-			if lv == menuFull && v != nil {
-				add(Op{K: "set", Key: k, Val: v, Tag: tagMD})
-				add(Op{K: "set", Key: k + ".style.opacity", Val: v})
+			add(v != nil && *v == "vx", Op{K: "set", Key: k, Val: v})
+			add(v != nil && *v == "#f00", Op{K: "set", Key: k + ".style.stroke", Val: v})
+			add(false, Op{K: "set", Key: k + ".target-arrowhead.label", Val: v})
+			if v != nil {
+				add(false, Op{K: "set", Key: k, Val: v, Tag: tagMD})
+				add(false, Op{K: "set", Key: k + ".style.opacity", Val: v})
 			}
 		}
+		add(false, Op{K: "set", Key: k + ".style.opacity", Val: sp("0.3")})
 	}
 
 	// Delete
 	for i, o := range g.Objects {
-		add(Op{K: "delete", Key: objs[i]})
+		add(true, Op{K: "delete", Key: objs[i]})
 		for _, a := range objAttrKeys(o) {
-			add(Op{K: "delete", Key: objs[i] + "." + a})
+			add(true, Op{K: "delete", Key: objs[i] + "." + a})
 		}
 	}
 	for i, e := range g.Edges {
-		add(Op{K: "delete", Key: edges[i]})
+		add(true, Op{K: "delete", Key: edges[i]})
 		for _, a := range edgeAttrKeys(e) {
-			add(Op{K: "delete", Key: edges[i] + "." + a})
+			add(true, Op{K: "delete", Key: edges[i] + "." + a})
 		}
 	}
-	add(Op{K: "delete", Key: "nope"})
+	add(false, Op{K: "delete", Key: "nope"})
 
 	// Rename
 	for i, o := range g.Objects {
-		names := []string{"z", "q.r", "a"}
+		add(true, Op{K: "rename", Key: objs[i], Val: sp("z")})
+		add(false, Op{K: "rename", Key: objs[i], Val: sp("q.r")})
+		add(false, Op{K: "rename", Key: objs[i], Val: sp("a")})
 		for _, sib := range o.Parent.ChildrenArray {
 			if sib != o {
-				names = append(names, sib.IDVal)
+				add(true, Op{K: "rename", Key: objs[i], Val: sp(sib.IDVal)})
 				break
 			}
 		}
-		for _, n := range names {
-			add(Op{K: "rename", Key: objs[i], Val: sp(n)})
-		}
 	}
 	for _, k := range edges {
-		pre, body, idx, ok := splitEdgeID(k)
+		_, body, idx, ok := splitEdgeID(k)
 		if !ok {
 			continue
 		}
-		_ = pre
+		first := true
 		for _, arrow := range []string{"<-", "<->", "--", "->"} {
 			nb, changed := swapArrow(body, arrow)
 			if changed {
-				add(Op{K: "rename", Key: k, Val: sp("(" + nb + ")" + idx)})
-				if lv != menuFull {
-					break
-				}
+				add(first, Op{K: "rename", Key: k, Val: sp("(" + nb + ")" + idx)})
+				first = false
 			}
 		}
 	}
 
-	// Move
+	// Move. Moving a container WITH its descendants into its own subtree is left out: on the unchanged
+	// tree that call does not return (observed; reported), and none of C36–C41 is about termination.
 	for i, o := range g.Objects {
 		dests := append([]string{""}, containers...)
 		for _, d := range dests {
@@ -364,33 +366,36 @@ func boardMenu(b BoardRef, lv menuLevel) []Op {
 			if nk == objs[i] {
 				continue // already there
 			}
-			add(Op{K: "move", Key: objs[i], Val: sp(nk), Incl: true})
-			add(Op{K: "move", Key: objs[i], Val: sp(nk), Incl: false})
+			if !isUnder(d, objs[i]) {
+				add(true, Op{K: "move", Key: objs[i], Val: sp(nk), Incl: true})
+			}
+			add(true, Op{K: "move", Key: objs[i], Val: sp(nk), Incl: false})
 		}
 		// into a container that does not exist, and a rename-like move within the same scope
-		add(Op{K: "move", Key: objs[i], Val: sp(freshName2 + "." + o.ID), Incl: true})
+		if !isUnder(freshName2, objs[i]) {
+			add(false, Op{K: "move", Key: objs[i], Val: sp(freshName2 + "." + o.ID), Incl: true})
+		}
 		same := "z"
 		if o.Parent != g.Root {
 			same = o.Parent.AbsID() + ".z"
 		}
-		add(Op{K: "move", Key: objs[i], Val: sp(same), Incl: true})
-		add(Op{K: "move", Key: objs[i], Val: sp(same), Incl: false})
+		add(true, Op{K: "move", Key: objs[i], Val: sp(same), Incl: true})
+		add(false, Op{K: "move", Key: objs[i], Val: sp(same), Incl: false})
 	}
 
 	// ReconnectEdge
 	for _, k := range edges {
-		for _, x := range objs {
-			add(Op{K: "reconnect", Key: k, Src: sp(x)})
-			add(Op{K: "reconnect", Key: k, Dst: sp(x)})
+		for i, x := range objs {
+			mini := i == 0 || i == last
+			add(mini, Op{K: "reconnect", Key: k, Src: sp(x)})
+			add(mini, Op{K: "reconnect", Key: k, Dst: sp(x)})
 		}
-		if lv == menuFull {
-			for _, x := range objs {
-				for _, y := range objs {
-					add(Op{K: "reconnect", Key: k, Src: sp(x), Dst: sp(y)})
-				}
+		for _, x := range objs {
+			for _, y := range objs {
+				add(false, Op{K: "reconnect", Key: k, Src: sp(x), Dst: sp(y)})
 			}
 		}
-		add(Op{K: "reconnect", Key: k, Dst: sp("nope")})
+		add(false, Op{K: "reconnect", Key: k, Dst: sp("nope")})
 	}
 	return ops
 }
